@@ -30,6 +30,9 @@ type Config struct {
 	Workers       int
 	InitPrefixes  []string
 	redirects     map[string]*ssa.Function
+	NoMerge       bool
+	NoEvalSkip    bool
+	MergeInts     bool
 	AllowCuts     bool // bound-exceeded paths are declared assumption cuts by the harness config
 	Seed          int64
 	Deadline      time.Time
@@ -92,6 +95,9 @@ type RunResult struct {
 	Samples      []PathSample
 	Witnesses    []PathSample // for translator validation
 	UnknownFeas  int
+	Merges       int
+	EvalSkips    int
+	MergeAborts  int
 	MaxPathsHit  bool
 	Traces       []*ThreadTrace
 	OvfSat       int
@@ -231,7 +237,7 @@ type pathRun struct {
 func runPath(prog *ssa.Program, entry *ssa.Function, initFn []*ssa.Function, cfg *Config, w *Worker, prefix []int, spawn func([]int)) (pr *pathRun) {
 	in := &Interp{w: w, tb: w.tb, prog: prog, cfg: cfg, prefix: prefix, spawn: spawn,
 		globals: map[*ssa.Global]*Object{}, reached: map[string]int{}, asserts: map[string]int{}, notes: map[string]int{}, cuts: map[string]int{},
-		funcsHit: map[*ssa.Function]bool{}, loopCnt: map[*ssa.BasicBlock]int{}, harnessState: map[string]Value{}}
+		model: Model{}, funcsHit: map[*ssa.Function]bool{}, loopCnt: map[*ssa.BasicBlock]int{}, harnessState: map[string]Value{}}
 	if cfg.AccessLog {
 		in.access = &accessLog{}
 	}
@@ -290,6 +296,9 @@ func mergePath(res *RunResult, pr *pathRun, cfg *Config) {
 		res.NdPaths++
 	}
 	res.UnknownFeas += in.unknownFeas
+	res.Merges += in.merges
+	res.EvalSkips += in.evalSkips
+	res.MergeAborts += in.mergeAborts
 	for f := range in.funcsHit {
 		res.Funcs[f.String()] = true
 	}
